@@ -14,6 +14,8 @@ use vharness::ops::Case;
 #[global_allocator]
 static GLOBAL: VAlloc = VAlloc;
 
+static WATCH_PROP: std::sync::OnceLock<String> = std::sync::OnceLock::new();
+
 fn quick_cases(prop: u32) -> u64 {
     match prop {
         13 => 30_000,
@@ -70,7 +72,7 @@ fn cmd_gen(a: &[String]) {
     install_hooks();
     for _ in 0..n {
         let c = st.new_tree(&mut runner).unwrap().current();
-        let r = run_one_checked(&c, false, true);
+        let r = run_one_checked(&c, false, true, 1 << prop);
         println!("{}", serde_json::to_string(&c).unwrap());
         match r {
             Ok(r) => println!(
@@ -102,7 +104,7 @@ fn cmd_replay(a: &[String]) {
     let quiet = a.iter().any(|x| x == "--quiet");
     silence_panics();
     install_hooks();
-    match run_one_checked(&case, true, true) {
+    match run_one_checked(&case, true, true, 1 << prop) {
         Err(e) => {
             println!("HARNESS PANIC during replay: {e}");
             std::process::exit(2);
@@ -167,6 +169,7 @@ fn cmd_run(a: &[String]) {
         i += 1;
     }
     let seed: u64 = std::env::var("VERIF_SEED").ok().and_then(|s| s.parse().ok()).unwrap_or(1);
+    let _ = WATCH_PROP.set(format!("C{prop:02}"));
     silence_panics();
     // watchdog: a hang inside the crate is "inconclusive", never a violation
     std::thread::spawn(|| {
@@ -177,8 +180,31 @@ fn cmd_run(a: &[String]) {
             let p = PROGRESS.load(Ordering::Relaxed);
             if p == last {
                 idle += 5;
-                if idle >= 300 {
-                    println!("INCONCLUSIVE: watchdog - no case finished for 300 s (hang?)");
+                if idle >= 120 {
+                    // a shard is stuck inside the crate (an endless loop that never calls back). Whatever the
+                    // other shards - or this one, before it got stuck - have found is still reported.
+                    let found: Vec<Failure> = SO_FAR.lock().map(|g| g.clone()).unwrap_or_default();
+                    if !found.is_empty() {
+                        let dir = verif_dir();
+                        let _ = std::fs::create_dir_all(format!("{dir}/replays"));
+                        let mut seen = std::collections::HashSet::new();
+                        for f in &found {
+                            if !seen.insert(f.sig.clone()) {
+                                continue;
+                            }
+                            let pid = f.sig.split('/').next().unwrap_or("Cxx").to_string();
+                            let pid = WATCH_PROP.get().cloned().unwrap_or(pid);
+                            let path = format!("{dir}/replays/{pid}-{:016x}.json", f.case.digest());
+                            let doc = json!({"property": pid, "engine": "E1", "signature": f.sig, "message": f.msg, "case": f.case,
+                                "note": "written by the watchdog: another case hung inside the crate before the run could finish"});
+                            let _ = std::fs::write(&path, serde_json::to_string_pretty(&doc).unwrap());
+                            println!("  [{}] {}", f.sig, f.msg);
+                            println!("VIOLATION property={pid} replay={path}");
+                        }
+                        println!("(watchdog: no case finished for 120 s - a case hangs inside the crate; reporting what was found)");
+                        std::process::exit(1);
+                    }
+                    println!("INCONCLUSIVE: watchdog - no case finished for 120 s (hang?)");
                     std::process::exit(2);
                 }
             } else {
@@ -206,7 +232,7 @@ fn cmd_run(a: &[String]) {
             }
             let Ok(case) = serde_json::from_value::<Case>(v["case"].clone()) else { continue };
             replays_run += 1;
-            if let Ok(r) = run_one_checked(&case, false, true) {
+            if let Ok(r) = run_one_checked(&case, false, true, 1 << prop) {
                 for vi in violations_of(prop, &r) {
                     let k = known.iter().any(|k| k.status == "known" && k.signature == vi.sig && k.property == pid);
                     if !k && seen.insert(vi.sig.clone()) {
@@ -222,7 +248,7 @@ fn cmd_run(a: &[String]) {
             continue;
         }
         // re-run the shrunk case with tracing for the replay file
-        let log = match run_one_checked(&f.case, true, true) {
+        let log = match run_one_checked(&f.case, true, true, 1 << prop) {
             Ok(r) => r.log,
             Err(e) => vec![format!("harness panic while tracing: {e}")],
         };
